@@ -59,27 +59,28 @@ func NewParams(schema *Schema, su SimpleURL, resType string) (*Params, error) {
 	}
 
 	// Build params.Include
-	params.Include = make([][]Rel, len(incs))
+	//
+	// A path is left out if one of its relationships does not exist.
+	params.Include = make([][]Rel, 0, len(incs))
 
 	for i := range incs {
 		words := strings.Split(incs[i], ".")
+		path := make([]Rel, 0, len(words))
+		typ := schema.GetType(resType)
 
-		params.Include[i] = make([]Rel, len(words))
-
-		var incRel Rel
-
-		for w := range words {
-			if w == 0 {
-				typ := schema.GetType(resType)
-				incRel = typ.Rels[words[0]]
+		for _, word := range words {
+			incRel, ok := typ.Rels[word]
+			if !ok {
+				path = nil
+				break
 			}
 
-			params.Include[i][w] = incRel
+			path = append(path, incRel)
+			typ = schema.GetType(incRel.ToType)
+		}
 
-			if w < len(words)-1 {
-				typ := schema.GetType(incRel.ToType)
-				incRel = typ.Rels[words[w+1]]
-			}
+		if path != nil {
+			params.Include = append(params.Include, path)
 		}
 	}
 
